@@ -145,9 +145,13 @@ def solve_sylvester_2nd_quant(
         diagonal Hamiltonian blocks.
 
     """
-    eigs = tuple(
-        [NumberOrderedForm.from_expr(eig) for eig in eig_block] for eig_block in eigs
-    )
+    # An exactly zero block has a 0-d array as eigenvalues, its size is not known yet.
+    eigs = [
+        []
+        if np.ndim(eig_block) == 0
+        else [NumberOrderedForm.from_expr(eig) for eig in eig_block]
+        for eig_block in eigs
+    ]
     if any(not eig.is_particle_conserving() for eig_block in eigs for eig in eig_block):
         raise ValueError(
             "The diagonal Hamiltonian blocks must contain only number-conserving expressions."
